@@ -21,8 +21,9 @@
    (psd /= max(psd); sampling / real(psi); res *= 2*pi/df).  The specs give the IR's tag; it is not a claim about numpy's dtype there. *)
 From Coq Require Import String QArith Qcanon PrimFloat.
 Require Import Spectrum.Theory.Ops Spectrum.Theory.Vec Spectrum.Theory.Dft Spectrum.Model.LoopIR Spectrum.Model.LoopIRTie
-               Spectrum.Model.Levinson Spectrum.Model.Burg Spectrum.Model.Corr Spectrum.Model.Arma2psd Spectrum.Model.Minvar
-               Spectrum.Model.Periodogram
+               Spectrum.Model.Levinson Spectrum.Model.Burg Spectrum.Model.Minvar.
+Require Export Spectrum.Model.Corr Spectrum.Model.Arma2psd Spectrum.Model.Periodogram.      (* cnorm, arma_sides, pyval: named by the generated cases *)
+Require Import
                Spectrum.Instances.QcC Spectrum.Instances.QcCTw Spectrum.Instances.FloatC Spectrum.Instances.FloatTw.
 Import ListNotations.
 Local Open Scope Z_scope.
